@@ -60,9 +60,9 @@ EXPECT = {
     "degenerate": ("free", False),               # empty file, header only, data section only, EOF only
 }
 
-RULE = ("ADVERSARIAL files (harness/c13_adv.py), per round: six abstract files inside File.wf that the plain generator reaches rarely or never (clock-only "
+RULE = ("ADVERSARIAL files (harness/c13_adv.py), per round: seven abstract files inside File.wf that the plain generator reaches rarely or never (clock-only "
         "records, epochs without records, SP3-d with 0..150 comment lines, 86..171 satellites, every constellation letter incl. unlisted ones and P/V, comments "
-        "that look like record / epoch / EOF lines) through the full oracle, and one small rendered file mutated as TEXT in every kind of `adversarial_kinds` "
+        "that look like record / epoch / EOF lines, blank lines after records) through the full oracle, and one small rendered file mutated as TEXT in every kind of `adversarial_kinds` "
         "(line ends, EOF placement, blank lines, header labels in the data section and data lines in the header, misplaced V/EP/EV lines, duplicate epochs, "
         "garbage and truncated records, degenerate files), each parsed by the real parser (half of them through parsers.parse_file('sp3', path)) incl. as_dataset "
         "and by the compiled model on the same bytes (`c13 text`), canonical outputs compared; the real parser's result is compared with the unmutated file's")
@@ -88,6 +88,7 @@ MODEL_KINDS = {
     "over-85-satellites": "supported: any number of + / ++ lines is skipped (the satellite list of the header is not read at all)",
     "all-constellation-letters": "supported: any letter, system = first character of the id (also ids starting with P or V)",
     "comment-looks-like-data": "supported: a /* line is skipped whatever its text (P record, * line, EOF, %f)",
+    "blank-lines-after-records": "supported: lines of 0..5 blanks after position records (several in a row, between V / EP lines, before EOF) are skipped",
 }
 
 HEADER_TAGS = ("/*", "%c", "%f", "%i", "+ ", "++", "#c", "#d", "##")
@@ -400,6 +401,14 @@ def model_variants(rng, c13):
     for x in extra:
         F["tail"].insert(rng.randint(0, len(F["tail"])), x)
     out.append(("comment-looks-like-data", F))
+    # blank lines (extra kind "B" of the abstract file): after every other record, several in a row, among V / EP / EV lines, before EOF
+    F = c13.gen_model(rng, True, nsat=rng.randint(1, 4), nep=rng.randint(1, 3))
+    for e in F["epochs"]:
+        for r in e["recs"]:
+            for _ in range(rng.choice([0, 1, 1, 2, 4])):
+                r["extras"].insert(rng.randint(0, len(r["extras"])), ("B", " " * rng.choice([0, 0, 1, 3, 5, 80])))
+    F["epochs"][-1]["recs"][-1]["extras"].append(("B", " " * rng.choice([0, 2])))
+    out.append(("blank-lines-after-records", F))
     return out
 
 
